@@ -17,7 +17,7 @@ use std::{
 
 use serde::{Deserialize, Serialize};
 use slotmap::SlotMap;
-use string_interner::{StringInterner, backend::StringBackend};
+use string_interner::{StringInterner, backend::BucketBackend};
 
 use crate::{
     ast::Expr,
@@ -32,7 +32,11 @@ slotmap::new_key_type! {
 
 /// Global storages shared during compilation stages.
 pub struct SessionGlobals {
-    pub symbol_interner: StringInterner<StringBackend<usize>>,
+    /// `BucketBackend` keeps every interned string at a stable address for the
+    /// lifetime of the interner. `Symbol::as_str()` hands out `&str`s that
+    /// outlive the lock; a backend that stores all strings in one growable
+    /// buffer would leave them dangling as soon as another symbol is interned.
+    pub symbol_interner: StringInterner<BucketBackend<usize>>,
     pub expr_storage: SlotMap<ExprKey, Expr>,
     pub type_storage: SlotMap<TypeKey, Type>,
     pub loc_storage: BTreeMap<NodeId, Location>,
